@@ -74,7 +74,9 @@ pub fn run(line: &str) -> String {
                 }
             }
             let vspan = item.span();
-            let seed = Expect { path: path.clone(), kind: kind.clone() };
+            let opt = kind.starts_with("opt-");
+            let kind = kind.trim_start_matches("opt-").to_string();
+            let seed = Expect { path: path.clone(), kind: kind.clone(), opt };
             let with_src = seed.clone().deserialize(toml::de::Deserializer::new(&text));
             let with_src2 = seed.clone().deserialize(toml_edit::de::Deserializer::parse(&text).unwrap());
             let doc_mut = im.into_mut();
@@ -122,11 +124,40 @@ pub fn run(line: &str) -> String {
 struct Expect {
     path: Vec<String>,
     kind: String,
+    /// every table on the way (and the value itself) is read through `Option<…>`
+    opt: bool,
+}
+
+/// `Option<T>`'s visitor: `visit_some` hands the same deserializer to `T`
+struct Opt(Expect);
+impl<'de> Visitor<'de> for Opt {
+    type Value = ();
+    fn expecting(&self, f: &mut std::fmt::Formatter<'_>) -> std::fmt::Result {
+        write!(f, "option")
+    }
+    fn visit_none<E>(self) -> Result<(), E> {
+        Ok(())
+    }
+    fn visit_unit<E>(self) -> Result<(), E> {
+        Ok(())
+    }
+    fn visit_some<D: Deserializer<'de>>(self, d: D) -> Result<(), D::Error> {
+        self.0.inner(d)
+    }
 }
 
 impl<'de> DeserializeSeed<'de> for Expect {
     type Value = ();
     fn deserialize<D: Deserializer<'de>>(self, d: D) -> Result<(), D::Error> {
+        if self.opt {
+            return d.deserialize_option(Opt(self));
+        }
+        self.inner(d)
+    }
+}
+
+impl Expect {
+    fn inner<'de, D: Deserializer<'de>>(self, d: D) -> Result<(), D::Error> {
         if self.path.is_empty() {
             return match self.kind.as_str() {
                 "i64" => i64::deserialize_from(d),
@@ -182,7 +213,7 @@ impl<'de> Visitor<'de> for Expect {
         while let Some(k) = map.next_key::<String>()? {
             if k == self.path[0] && !found {
                 found = true;
-                map.next_value_seed(Expect { path: self.path[1..].to_vec(), kind: self.kind.clone() })?;
+                map.next_value_seed(Expect { path: self.path[1..].to_vec(), kind: self.kind.clone(), opt: self.opt })?;
             } else {
                 map.next_value::<IgnoredAny>()?;
             }
